@@ -117,6 +117,11 @@ class C19(Prop):
         return t[7] != "none" and _where(t)[0] != "beyond" and impl.startswith("exit=")
 
     def extra(self, ctx):
+        # the stand-alone peer CLI (used by hand and by C01/C02 tooling) must keep building against the working tree
+        ok, se = core.go_build("peer", os.path.join(core.BIN, "peer"), tags="verif")
+        if not ok:
+            ctx.corr_breaks.append(dict(kind="correspondence", domain="failstop", op="(go build ./cmd/peer)", impl=se[-500:],
+                                        model="", spec="", why="the peer CLI no longer builds"))
         # no stray emulator processes, no scratch directories
         try:
             out = subprocess.run(["pgrep", "-f", "stgutgmain-verif -t"], stdout=subprocess.PIPE, text=True).stdout.split()
